@@ -26,7 +26,7 @@ RULE = ("cases: histories of 2-7 steps on ONE operator object (PD operators of e
         "derived from and into) are snapshotted when first seen and are bit-identical at the end of the history. Samples are drawn but not "
         "compared (roots are not unique); answers whose history-free value changes with the RNG state are counted as not comparable. "
         "Cache hits are counted (memo getters wrapped); a run without hits is inconclusive. distinct key = (root class, "
-        "query, position in history, previous step, settings key) [round 4: settings include rank-truncating max_root_decomposition_size (n // 2); directed histories 'truncated Lanczos query -> derivation -> explicit-method query'; a rank-deficient answer is excused as a Krylov compression only when a Lanczos run happened during the query itself, or for default-method / Lanczos-named queries answered from the cache - never for queries naming a direct method; transplants from a rank-deficient parent root are counted, not judged]")
+        "query, position in history, previous step, settings key) [round 4: settings include rank-truncating max_root_decomposition_size (n // 2); directed histories 'truncated Lanczos query -> derivation -> explicit-method query'; a rank-deficient answer is excused as a Krylov compression only when a Lanczos run happened during the query itself, or for default-method / Lanczos-named queries answered from the cache - never for queries naming a direct method; transplants from a rank-deficient parent root are counted, not judged] [round 6: queries chol_inverse / chol_upper_inverse reach into the factor objects the operator hands out]")
 ASSUMPTIONS = ["a fresh build of the same spec is the history-free reference", "canonical forms remove the legitimate non-uniqueness of roots and eigenvectors",
                "tolerances: direct 1e-7 (f64) / 5e-3 (f32); 5e-3 when a Lanczos-based result is involved (lanczos.* hook events)"]
 REQUIRED_STATS = ("queries", "cache_hits")
